@@ -28,6 +28,7 @@ type Config struct {
 	PreAdd      int           // directories added before the first step
 	KeepGoing   bool          // do not stop at a WatchList/result mismatch (C01-C03: the stream is their subject; the model is the spec)
 	StartPaused bool          // pause the consumer right after the initial Adds
+	NoDot       bool          // never use the working directory itself (".") as a watched directory
 }
 
 type WindowDiff struct {
@@ -265,6 +266,13 @@ func RunProgram(rng *rand.Rand, dir string, cfg Config) (rep *Report) {
 	os.Mkdir("u", 0o755)
 	os.Symlink("d0", "l0")
 	all := append(append([]string{}, dirs...), "u", "l0")
+	if !cfg.NoDot && rng.Intn(4) == 0 {
+		// the working directory itself: entries are then named by bare relative names ("f", whose
+		// lexical parent is "."), and "." can be watched under the spellings ".", "./", the absolute path
+		all = append(all, ".")
+		dirs = append(dirs, ".")
+		rep.OpKinds["dot-dir-program"]++
+	}
 	names := Names(rng, cfg.NNames, cfg.LongNames)
 	s.SetDelay(cfg.Delay)
 	var held []int
